@@ -36,6 +36,8 @@ FAMILIES = {
                     ["a", "ADD", "SUB", "1", "2"]),
     "slots": ("DEFINE PRIO 3 P <P> Q AS [ $0 ] END DEFINE\nDEFINE PRIO 2 A <ARGS> ! AS { $0 } END DEFINE\nDEFINE PRIO 1 <INT> ? <ID> AS $1 ? END DEFINE\n",
               ["P", "Q", "A", "!", "x", "7", ":=", ";", ",", "?"]),
+    "kwspell": ("DEFINE WHEN <ID> DO <P> END AS LOOP $0 DO $1 END END DEFINE\nDEFINE <ID> then <INT> AS $0 := $1 END DEFINE\n",
+                ["WHEN", "x", "DO", "do", "END", "End", "THEN", "then", ":=", "1"]),
     "swapargs": ("DEFINE <ID> <- <V> , <V> AS $0 := RUN f WITH $2 , $1 END END DEFINE\n", ["x", "1", "<", "-", ",", "y"]),
 }
 
